@@ -869,7 +869,7 @@ fn c01(r: &mut Rng, i: u64, p: &HashMap<String, String>) -> Vec<Value> {
     let shape = if p.get("shape").map(|s| s == "deep").unwrap_or(false) { 5 } else { r.below(11) };
     let mut levels = 0u64;
     let bytes: Vec<u8> = match shape {
-        0 | 1 | 2 | 3 => { let mut f = if r.chance(1, 2) { Feat::all() } else { Feat::notables() }; f.vs16 = true; f.ids = r.chance(1, 3); f.sup = r.chance(1, 3);
+        0 | 1 | 2 | 3 => { let mut f = if r.chance(1, 2) { Feat::all() } else { Feat::notables() }; f.vs16 = true; f.ids = r.chance(1, 3); f.sup = r.chance(1, 3); f.stray = r.chance(1, 2);
                            let mut g = G::new(r, f); let body = g.flow(0);
                            let style = if r.chance(1, 3) { format!("<style>{}</style>", css_snippet(r)) } else { String::new() };
                            let html = format!("{}{}", style, doc_html(&body)); mutate(r, html.as_bytes()) }
@@ -893,7 +893,8 @@ fn c01(r: &mut Rng, i: u64, p: &HashMap<String, String>) -> Vec<Value> {
             s.push_str(&"x".repeat(r.range(100, 3000) as usize)); for k in 0..r.range(0, 60) { s.push_str(&format!("<a href=u{}>l</a> ", k)); }
             s.into_bytes() }
         9 => sparse_table(r).into_bytes(),
-        _ => { let mut g = G::new(r, Feat::all()); let body = g.flow(0); doc_html(&body).into_bytes() }
+        _ => { let mut f = Feat::all(); f.stray = true;       // (markup the parser has to repair, unmutated)
+               let mut g = G::new(r, f); let body = g.flow(0); doc_html(&body).into_bytes() }
     };
     let wsel = if shape == 9 { 99 } else { r.below(12) };
     // 1000 nested tables at width 10^5 and more take ~10 s each (every level draws full-width borders): keep the
